@@ -179,6 +179,12 @@ where
         self.permut_generator.reset();
     }
 
+    /// verification hook: the per-position random values r attached to the current sketch entries
+    #[cfg(probminhash_verif)]
+    pub fn verif_values(&self) -> Vec<usize> {
+        self.values.clone()
+    }
+
     /// returns a reference to computed sketches
     pub fn get_hsketch(&self) -> &Vec<I> {
         return &self.hsketch;
